@@ -12,7 +12,9 @@ def plan(tier):
           (PG.forced(2, True, 2), 1, A), (PG.forced_two_gates(2), 1, A),
           (PG.forced(3, False, 6), 1, PT), (PG.forced_after_nowait(2, False), 1, PT),
           (PG.forced_after_nowait(2, True), 1, PT), (PG.forced_escalation(2), 1, PT),
-          (PG.forced_full_pipe(1, 1024, 3, 700, False), 1, PT)]
+          (PG.forced_full_pipe(1, 1024, 3, 700, False), 1, PT),
+          (PG.forced_descendants(2, False, False), 1, PT), (PG.forced_descendants(1, True, False), 1, PT),
+          (PG.forced_descendants(2, False, True), 1, dict(kinds=("P",)))]
     if tier == "thorough":
         pl += [(PG.forced(2, False, 3), 2, PT), (PG.forced(2, True, 2), 2, dict(kinds=("P",)))]
     return pl
